@@ -284,6 +284,12 @@ def monOp (op : String) (args : List String) : Option String :=
     | [remaining, startNs, expS, nowNs] =>
       some (if remaining == 0 || startNs + expS * 1000000000 < nowNs then "ok" else "viol C11-closed-before-expiry")
     | _ => none
+  | "mon_close_expiry" => do
+    -- C08: <expiring_at of a position this close closed> <block time of the close, s> <unlocking duration recorded for it>
+    let (e, ts) ← pOptNat args
+    let (now, ts) ← pNat ts
+    let (d, _) ← pNat ts
+    some (if e == some (now + d) then "ok" else "viol C08-expiry")
   | "mon_close_conserves" => do
     let (sb, ts) ← pNat args
     let (sa, ts) ← pNat ts
@@ -304,6 +310,12 @@ def monOp (op : String) (args : List String) : Option String :=
         | .ok sp => if got == (sp.ownerPayout : Int) then "ok" else "viol C09-penalty-amount"
         | .error _ => "viol C09-penalty-amount"
       | .error _ => "viol C09-penalty-amount")
+  | "mon_penalty_total" => do
+    -- C09: <position amount> <what left the farm manager in the LP token> <distinct owners of the active farms>
+    let (amt, ts) ← pNat args
+    let (out, ts) ← pInt ts
+    let (n, _) ← pNat ts
+    some (if out ≤ (amt : Int) && (amt : Int) - out < ((max n 1 : Nat) : Int) then "ok" else "viol C09-penalty-not-distributed")
   | "mon_pos_has_weight" => do
     let (h, _) ← pBit args
     some (if h then "ok" else "viol C10-position-without-weight")
@@ -414,6 +426,11 @@ def monOp (op : String) (args : List String) : Option String :=
     let (x, ts) ← pNat ts
     let (distinct, _) ← pBit ts
     some (if !distinct || q == x then "ok" else "viol C12-route-quote")
+  | "mon_route_unquoted" => do
+    -- C12: an EXECUTED route that SimulateSwapOperations refused to price an instant before; <pools pairwise distinct and no
+    -- denom produced by two hops> (otherwise the query may legitimately overflow: C12Sys.route_tx_equals_simulation_partial)
+    let (clean, _) ← pBit args
+    some (if clean then "viol C12-route-quote" else "ok")
   | "mon_rev" => do
     -- C12 reverse quote: `ret` is what the implementation pays for quote + 1
     let (xs, _) ← pRepeat pNat 6 args
@@ -427,6 +444,11 @@ def monOp (op : String) (args : List String) : Option String :=
     let (own, ts) ← pBit args
     let (_viaPm, _) ← pBit ts
     some (if own then "ok" else "viol C08-created-for-other")
+  | "mon_single_shape" => do
+    -- C14: <assets of the pool> <pool was empty> of an ACCEPTED single-asset deposit
+    let (n, ts) ← pNat args
+    let (empty, _) ← pBit ts
+    some (if n != 2 then "viol C14-larger-pool" else if empty then "viol C14-empty-pool" else "ok")
   | "mon_cp_slippage" => do
     let (tol, ts) ← pOptNat args
     let (xs, _) ← pRepeat pNat 5 ts
